@@ -288,7 +288,12 @@ func (it *skippingIterator) prev() (_ bool, unsafeFrom int) {
 		stop = 0
 	}
 
-	L := len(it.c.buffer.outInfo)
+	// outInfo is only meaningful in output mode: otherwise it still holds the glyphs
+	// (and the length) of the buffer before the last swap
+	L := 0
+	if it.c.buffer.haveOutput {
+		L = len(it.c.buffer.outInfo)
+	}
 	for it.idx > stop {
 		it.idx--
 		var info *GlyphInfo
